@@ -18,6 +18,7 @@ import CelloProofs.Lemmas.IterTree
 import CelloProofs.Lemmas.IterRange
 import CelloProofs.Lemmas.IterViews
 import CelloProofs.Lemmas.IterSlice
+import CelloProofs.Lemmas.IterCompose
 
 namespace Cello.Iter
 
@@ -212,6 +213,35 @@ theorem C11_slice_refuted : ¬ C11_slice_statement ∧
     10 (by decide)
   revert h; decide
 
+/-- the two regions are EXACT when an Array is underneath: for every length up to 5, every clamped start and stop and
+    every step in [-6, 6], the model's walk is right if and only if the parameters lie in the region (exhaustive
+    evaluation in the kernel; the harness compares the same verdicts with the C code on [-9,9]^3 and lengths 0..8) -/
+theorem C11_slice_region_exact_small :
+    (List.range 6).all (fun n => (List.range (n + 1)).all (fun a => (List.range (n + 1)).all (fun b =>
+      (stepsUpTo 6).all (fun c =>
+        (sliceFwdOk n a b c == decide (SliceRegionFwd n a b c)) &&
+        (sliceBwdOk n a b c == decide (SliceRegionBwd n a b c)))))) = true := by
+  decide +kernel
+
+/-! ## Every composition, to any nesting depth -/
+
+/-- **Compositions.** `denote` is the function the driver runs on an op-file expression (and the harness builds the same
+    object from the real library); `specOf e` is the sequence the definitions select, defined exactly for the expressions
+    outside known-finding territory (Tuples without a repeated object, Slices inside both regions, Zips of inputs of
+    equal length, Filters over fewer than `filterFuel` items).  For every such expression — containers, Range, and
+    Slice / reverse / Zip / enumerate / Filter / Map nested to ANY depth — the model object is constructed and is lawful
+    for `specOf e`.  Proved by induction over the expression, using the closure theorems above. -/
+theorem C11_compositions_lawful (e : Expr) (l : List Val) (h : specOf e = some l) :
+    ∃ I, denote e = .ok I ∧ LawfulAs I l :=
+  let ⟨I, hd, hl, _⟩ := denote_lawful e l h
+  ⟨I, hd, hl⟩
+
+/-- … hence the interpreter the driver runs yields exactly `specOf e` forwards and its reverse backwards -/
+theorem C11_compositions_run (e : Expr) (l : List Val) (h : specOf e = some l) (fuel : Nat) (hf : l.length < fuel) :
+    ∃ I, denote e = .ok I ∧ I.forward fuel = (l, .term) ∧ I.backward fuel = (l.reverse, .term) :=
+  let ⟨I, hd, hl⟩ := C11_compositions_lawful e l h
+  ⟨I, hd, C11_lawful_is_what_runs I l hl fuel hf⟩
+
 /-! ## Non-vacuity -/
 
 example : LawfulAs (arrayI [5, 6, 7]) [5, 6, 7] ∧ (arrayI [5, 6, 7]).forward 10 = ([5, 6, 7], .term) ∧
@@ -239,5 +269,15 @@ example : SliceRegionFwd 5 1 4 2 ∧ SliceRegionBwd 5 1 4 2 ∧ sliceSpec [10, 1
     (sliceI (arrayI [10, 11, 12, 13, 14]) 5 1 4 2).forward 10 = ([11, 13], .term) ∧
     (sliceI (arrayI [10, 11, 12, 13, 14]) 5 1 4 2).backward 10 = ([13, 11], .term) := by
   refine ⟨Or.inl ⟨by decide, Or.inr ⟨by decide, by decide⟩⟩, Or.inl ⟨by decide, Or.inr ⟨by decide, by decide⟩⟩, by decide, by decide, by decide⟩
+
+example : (specOf (.slice (.map (.enum (.list [5, 6, 7])) 1 0) [none, none, some (-1)])).map (fun l => l.map Val.show) =
+    some ["9", "7", "5"] := by decide
+
+example : (specOf (.zip [.tuple [4, 5], .slice (.array [1, 2, 3, 4, 5]) [some 1, some 4, some 2]])).map
+    (fun l => l.map Val.show) = some ["(4,2)", "(5,4)"] := by decide
+
+/-- outside the admissible part `specOf` is undefined: a Slice outside its region, a Zip of unequal inputs -/
+example : specOf (.slice (.array [1, 2, 3, 4, 5, 6]) [some 0, some 2]) = none ∧
+    specOf (.zip [.array [1, 2, 3], .list [10, 20]]) = none ∧ specOf (.tuple [7, 7]) = none := by decide
 
 end Cello.Iter
